@@ -29,7 +29,12 @@ Good == /\ conn = "open" /\ stage < Len(Stages)
         /\ stage' = stage + 1 /\ path' = Append(path, "ok") /\ UNCHANGED <<conn, up, endpoint>>
 Bad(k) == /\ conn = "open"
           /\ conn' = "closed" /\ path' = Append(path, k) /\ UNCHANGED <<stage, up, endpoint>>
-Next == Good \/ \E k \in BadKinds : Bad(k)
+(* Past the connection establishment a gossip peer speaks RPC; its ANNOUNCEMENT of the blocks it stores is taken at face value       *)
+(* (only first <= last is checked, runner.rs:69-81) and then consulted by the block fetcher: extreme ranges are inputs too.            *)
+RpcKinds == {"announce_last_max_pregenesis", "announce_last_max_certified", "announce_first_max", "announce_inverted", "announce_far_future", "announce_then_answer_nothing"}
+Rpc(k) == /\ conn = "open" /\ stage = Len(Stages) /\ endpoint = "gossip"
+          /\ conn' = "closed" /\ path' = Append(path, k) /\ UNCHANGED <<stage, up, endpoint>>
+Next == Good \/ (\E k \in BadKinds : Bad(k)) \/ (\E k \in RpcKinds : Rpc(k))
 Up == up = TRUE
 ClosedIsFinal == [][conn = "closed" => conn' = "closed"]_vars
 =============================================================================
